@@ -430,3 +430,80 @@ func (w *sigWorld) metaInfo(salt int) []byte {
 	}
 	return b
 }
+
+// TestC14RosterBoundaries enumerates vector sizes around the counter's byte boundaries.
+func TestC14RosterBoundaries(t *testing.T) {
+	theT = t
+	col := ev.New("C14", "roster-boundaries",
+		"complete enumeration: one vector filled to a total of {1,2,126,127,128,129,254,255,256,257,300} keys by two batches split at every point of {1,2,126,127,128,129,254,255,256} below the total (so that the 2-byte counter continues across 127/128 and 255/256 inside and between batches), committed, re-read in order, followed by a second smaller roster and an empty commit; non-trivial = total > 127")
+	defer func() { col.Flush(true) }()
+	totals := []int{1, 2, 126, 127, 128, 129, 254, 255, 256, 257, 300}
+	splits := []int{1, 2, 126, 127, 128, 129, 254, 255, 256}
+	for _, total := range totals {
+		for _, sp := range append([]int{0}, splits...) {
+			if sp >= total {
+				continue
+			}
+			h := ev.NewHistory()
+			h.Op("total=%d split=%d", total, sp)
+			ok := runCase(t, col, h, func() {
+				w := newCntWorld(1, h, 0, 0)
+				defer w.close()
+				cid := detBytes("cid-boundary", 32)
+				var all [][]byte
+				send := func(from, to int) {
+					batch := []any{}
+					for i := from; i < to; i++ {
+						k := synthKey(1000 + i)
+						all = append(all, k)
+						batch = append(batch, k)
+					}
+					if o := w.c.Invoke(w.alpha, w.cnt, "addNextEpochNodes", cid, 0, batch); !o.Halt {
+						fail("C14: addNextEpochNodes of %d keys failed: %s", to-from, o)
+					}
+				}
+				if sp > 0 {
+					send(0, sp)
+				}
+				send(sp, total)
+				if o := w.c.Invoke(w.alpha, w.cnt, "commitContainerListUpdate", cid, []any{2}); !o.Halt {
+					fail("C14: commit failed: %s", o)
+				}
+				check := func(want [][]byte, what string) {
+					got, ok := bytesList(w.c.Call(nil, w.cnt, "nodes", cid, 0))
+					if !ok || len(got) != len(want) {
+						fail("C14: nodes() returns %d keys, %d were committed (%s)", len(got), len(want), what)
+					}
+					for i := range want {
+						if got[i] != "x"+hex(want[i]) {
+							fail("C14: nodes()[%d] differs from the %d-th submitted key (%s): submission order is not kept", i, i, what)
+						}
+					}
+				}
+				check(all, "first roster")
+				// replace by a smaller roster, then clear
+				first := all
+				all = nil
+				send2 := synthKey(5000)
+				if o := w.c.Invoke(w.alpha, w.cnt, "addNextEpochNodes", cid, 0, []any{send2}); !o.Halt {
+					fail("C14: second add failed: %s", o)
+				}
+				if o := w.c.Invoke(w.alpha, w.cnt, "commitContainerListUpdate", cid, []any{1}); !o.Halt {
+					fail("C14: second commit failed: %s", o)
+				}
+				check([][]byte{send2}, fmt.Sprintf("second roster after one of %d keys", len(first)))
+				if o := w.c.Invoke(w.alpha, w.cnt, "commitContainerListUpdate", cid, []any{}); !o.Halt {
+					fail("C14: empty commit failed: %s", o)
+				}
+				check(nil, "empty commit")
+				if total > 127 {
+					h.NonTrivial()
+				}
+			})
+			if !ok {
+				return
+			}
+		}
+	}
+	col.SetExhaustive(true)
+}
